@@ -115,21 +115,6 @@ AsmWhy(r) ==
 ---------------------------------------------------------------------------
 \* Link records: a set of files, every link step of every order/bracketing, and for every
 \* object in the table: load result, both format round trips, debug queries.
-DefinedKeys(o) == { k \in DOMAIN o.labels : ~o.labels[k].ext }
-AddrIn(o, k) == o.labels[k].addr
-\* C20 in its own words, for one link of two objects that carry symbol tables
-ExpLabelsOf(a, b) ==
-  { <<k, IF k \in DefinedKeys(a) THEN AddrIn(a, k) ELSE IF k \in DefinedKeys(b) THEN AddrIn(b, k)
-         ELSE IF k \in DOMAIN a.labels THEN AddrIn(a, k) ELSE AddrIn(b, k),
-      k \notin DefinedKeys(a) /\ k \notin DefinedKeys(b)>> : k \in (DOMAIN a.labels) \cup (DOMAIN b.labels) }
-AllRel(a, b) == RelOfObj(a.rel) \cup RelOfObj(b.rel)
-DefAddr(a, b, k) == IF k \in DefinedKeys(a) THEN AddrIn(a, k) ELSE AddrIn(b, k)
-ExpRelOf(a, b) == { e \in AllRel(a, b) : e[2] \notin DefinedKeys(a) \cup DefinedKeys(b) }
-ExpImageOf(a, b) ==
-  LET raw == ImageOfBlocks(a.blocks) \cup ImageOfBlocks(b.blocks)
-      res == { e \in AllRel(a, b) : e[2] \in DefinedKeys(a) \cup DefinedKeys(b) }
-  IN { p \in raw : \A e \in res : e[1] # p[1] } \cup { <<e[1], DefAddr(a, b, e[2])>> : e \in { e \in res : \E p \in raw : p[1] = e[1] } }
-
 RECURSIVE FileInfos(_, _)
 FileInfos(r, f) ==
   IF f > r.nf THEN <<>>
